@@ -98,6 +98,25 @@ func AlpmLetterSuffixElement(s string) bool {
 	return false
 }
 
+// AlpmDegenerateSeparators: the pkgver starts or ends with a separator, or contains two
+// adjacent separators (an empty segment) - shapes on which libalpm's vercmp is not transitive.
+func AlpmDegenerateSeparators(s string) bool {
+	p := AlpmPkgver(s)
+	if p == "" {
+		return true
+	}
+	alnum := func(c byte) bool { return (c >= '0' && c <= '9') || (c >= 'a' && c <= 'z') || (c >= 'A' && c <= 'Z') }
+	if !alnum(p[0]) || !alnum(p[len(p)-1]) {
+		return true
+	}
+	for i := 1; i < len(p); i++ {
+		if !alnum(p[i]) && !alnum(p[i-1]) {
+			return true
+		}
+	}
+	return false
+}
+
 // GolangLiteralPseudo: a non-pseudo version whose pre-release is literally "pseudo" – the
 // sentinel go-univers uses internally for pseudo-versions.
 func GolangLiteralPseudo(s string) bool {
@@ -139,6 +158,11 @@ func init() {
 	})
 	Register("C01-alpm-direct-suffix", func(v *core.Violation) bool {
 		return v.Kind == "transitivity" && anyInput(AlpmLetterSuffixElement)(v)
+	})
+	// libalpm's vercmp itself is not transitive on pkgvers with an empty segment (leading,
+	// trailing or doubled separator): "+" < "0" < "+a" < "+", "1+" < "1+0" < "1..a" < "1+".
+	Register("C01-alpm-vercmp-empty-segment", func(v *core.Violation) bool {
+		return v.Kind == "transitivity" && anyInput(AlpmDegenerateSeparators)(v)
 	})
 	Register("C01-golang-literal-pseudo", func(v *core.Violation) bool {
 		return v.Kind == "transitivity" && anyInput(GolangLiteralPseudo)(v)
